@@ -3,6 +3,7 @@
 package verifhook
 
 import (
+	"fmt"
 	"encoding/binary"
 	"math/rand"
 	"sort"
@@ -105,6 +106,7 @@ func (h *leechH) collect() {
 // record appends the event and the state after its handler.
 func (h *leechH) record(e torrent.VEvent, code int64) {
 	np := h.np
+	Mark(h.r, fmt.Sprintf("record code=%d peer=%d", code, e.Peer))
 	g := b2i(e.Good)
 	if code == 2 {
 		g = b2i(e.BadLen)
@@ -271,7 +273,7 @@ func (h *leechH) pumpWrite() {
 	if !h.v.WriteInFlight() {
 		return
 	}
-	e := h.v.PumpEx(3*time.Second, torrent.ClsWrite)
+	e := h.v.PumpEx(10*time.Second, torrent.ClsWrite)
 	if e.Code == torrent.EvNone {
 		h.note["writetimeout"]++
 		return
@@ -301,7 +303,7 @@ func (h *leechH) send(p int, id byte, payload []byte) {
 	if q.vp.Send(id, payload) != nil {
 		return
 	}
-	e := h.v.PumpEx(time.Second, torrent.ClsMsg|torrent.ClsPiece)
+	e := h.v.PumpEx(10*time.Second, torrent.ClsMsg|torrent.ClsPiece)
 	if e.Code == torrent.EvNone {
 		h.note["msgtimeout"]++
 		return
@@ -426,6 +428,7 @@ func (h *leechH) serve(p int, good bool) bool {
 
 func (h *leechH) step() {
 	r := h.r
+	Mark(r, "step")
 	if len(h.peers) == 0 {
 		h.connect(r.Intn(2) == 0)
 		return
@@ -524,7 +527,7 @@ func (h *leechH) step() {
 		q.vp.Gone = true
 		q.vp.Conn.Close()
 		q.gone = true
-		e := h.v.PumpEx(time.Second, torrent.ClsDisc)
+		e := h.v.PumpEx(10*time.Second, torrent.ClsDisc)
 		if e.Code == torrent.EvNone {
 			h.note["disctimeout"]++
 			return
@@ -562,6 +565,7 @@ func (h *leechH) step() {
 
 // stepAfter: a few events against the seeding torrent
 func (h *leechH) stepAfter() {
+	Mark(h.r, "stepAfter")
 	r := h.r
 	p := -1
 	for k := range h.peers {
@@ -696,7 +700,7 @@ func (h *leechH) finish() {
 			q.vp.Gone = true
 			q.vp.Conn.Close()
 			q.gone = true
-			e := h.v.PumpEx(time.Second, torrent.ClsDisc)
+			e := h.v.PumpEx(10*time.Second, torrent.ClsDisc)
 			if e.Code == torrent.EvNone {
 				h.note["disctimeout"]++
 				alone = false
@@ -857,6 +861,9 @@ func genLeech(r *rand.Rand, tier string) Case {
 	}
 	if v.Snapshot().Completed {
 		note += "completed=1"
+	}
+	if v.BarrierTimeouts > 0 {
+		note += fmt.Sprintf(" barriertimeout=%d", v.BarrierTimeouts)
 	}
 	return Case{In: h.in, Obs: h.obs, Note: note}
 }
